@@ -38,6 +38,9 @@ Inductive expr :=
 | EStrip (a : expr)
 | ELower (a : expr)
 | EIsDict (a : expr)
+| EComp (x : string) (body src : expr)        (* [body for x in src] *)
+| ESetOf (a : expr)                          (* set(list): modelled as the list without repeats (first occurrences); only
+                                                membership and order-insensitive iteration may be applied to it *)
 | EIsStr (a : expr)
 | EJoin (sep : list ascii) (a : expr)        (* sep.join(list of strings) *)
 | EMod (a b : expr)
@@ -99,6 +102,12 @@ Fixpoint veqb (a b : value) {struct a} : bool :=
          | _, _ => false
          end) x y
   | _, _ => false
+  end.
+
+Fixpoint vdedup (seen l : list value) : list value :=
+  match l with
+  | [] => []
+  | v :: l' => if existsb (veqb v) seen then vdedup seen l' else v :: vdedup (v :: seen) l'
   end.
 
 Fixpoint join_strs (sep : list ascii) (l : list value) : option (list ascii) :=
@@ -251,6 +260,15 @@ Definition v_in (a b : value) : value :=
 Definition v_not (a : value) : value :=
   match truthy a with VBool b => VBool (negb b) | other => other end.
 
+(* one iteration's outcome threaded into the rest of a loop *)
+Definition elements (v : value) : option (list value) :=
+  match v with
+  | VStr s => Some (map (fun c => VStr [c]) s)
+  | VList l => Some l
+  | VDict d => Some (map fst d)
+  | _ => None
+  end.
+
 Section Interp.
 (* calls of other library functions are interpreted by [prim] (their own ties justify the table);
    every while-loop may iterate at most [wfuel] times (running out is OErr, excluded by the ties) *)
@@ -357,8 +375,8 @@ Fixpoint eval (e : expr) (r : env) {struct e} : value :=
                   end
   | EUpper a => match eval a r with
                 | VStr s => VStr (map upper_py s)
-                | VExc => VExc
-                | _ => VErr
+                | VErr => VErr
+                | _ => VExc               (* AttributeError: 'int' object has no attribute 'upper' *)
                 end
   | EIsInt a => match eval a r with
                 | VInt _ => VBool true
@@ -380,6 +398,28 @@ Fixpoint eval (e : expr) (r : env) {struct e} : value :=
                  | VErr => VErr
                  | _ => VBool false
                  end
+  | EComp x body src =>
+      match eval src r with
+      | VExc => VExc
+      | v => match elements v with
+             | None => VErr
+             | Some xs =>
+                 (fix go (xs : list value) : value :=
+                    match xs with
+                    | [] => VList []
+                    | v :: xs' => let y := eval body (set x v r) in
+                                  match go xs' with
+                                  | VList t => if is_bad y then y else VList (y :: t)
+                                  | other => if is_bad y then (match bad2 y other with Some e => e | None => other end) else other
+                                  end
+                    end) xs
+             end
+      end
+  | ESetOf a => match eval a r with
+                | VList l => VList (vdedup [] l)
+                | VExc => VExc
+                | _ => VErr
+                end
   | EIsStr a => match eval a r with
                 | VStr _ => VBool true
                 | VExc => VExc
@@ -452,15 +492,6 @@ Inductive outcome :=
 | ORet (v : value)
 | ORaise
 | OErr.
-
-(* one iteration's outcome threaded into the rest of a loop *)
-Definition elements (v : value) : option (list value) :=
-  match v with
-  | VStr s => Some (map (fun c => VStr [c]) s)
-  | VList l => Some l
-  | VDict d => Some (map fst d)
-  | _ => None
-  end.
 
 Fixpoint exec (s : stmt) (r : env) {struct s} : outcome :=
   match s with
@@ -632,6 +663,28 @@ Section LoopRule.
   Qed.
 End LoopRule.
 
+(* the list a comprehension builds, as a function of the element list *)
+Fixpoint comp_list (x : string) (body : expr) (xs : list value) (r : env) : value :=
+  match xs with
+  | [] => VList []
+  | v :: xs' => let y := eval body (set x v r) in
+                match comp_list x body xs' r with
+                | VList t => if is_bad y then y else VList (y :: t)
+                | other => if is_bad y then (match bad2 y other with Some e => e | None => other end) else other
+                end
+  end.
+
+Lemma eval_comp x body src r : eval (EComp x body src) r =
+  match eval src r with
+  | VExc => VExc
+  | v => match elements v with None => VErr | Some xs => comp_list x body xs r end
+  end.
+Proof.
+  cbn [eval]. destruct (eval src r); try reflexivity;
+  match goal with |- match elements ?v with _ => _ end = _ => destruct (elements v) as [xs|]; [|reflexivity] end;
+  induction xs as [|v xs IH]; cbn [comp_list]; try reflexivity; rewrite IH; reflexivity.
+Qed.
+
 (* a right-nested sequence is the list of its statements *)
 Fixpoint spine (s : stmt) : list stmt :=
   match s with SSeq a b => a :: spine b | _ => [s] end.
@@ -672,5 +725,6 @@ Arguments exec_seq {prim wfuel}.
 Arguments exec_split {prim wfuel}.
 Arguments exec_while {prim wfuel}.
 Arguments exec_spine {prim wfuel}.
+Arguments eval_comp {prim}.
 Arguments run_loop_rule {prim wfuel S}.
 Definition noprim : string -> list value -> value := fun _ _ => VErr.
